@@ -4,7 +4,7 @@ from ref import pools, schnorr
 
 ID = "C02"
 LEVEL = "exploration"
-CONFIGS = {"quick": ["san", "mx_i64"], "thorough": ["san", "san_nv", "mx_i64", "mx_i128s", "mx_noasm", "mx_clang", "mx_w2"]}
+CONFIGS = {"quick": ["san", "mx_i64", "mx_noasm"], "thorough": ["san", "san_nv", "mx_i64", "mx_i128s", "mx_noasm", "mx_clang", "mx_w2"]}
 EXTRA_BUILDS = ["sg13", "sg199"]
 RULE = ("sign32 / sign_custom / verify records: every message length 0..300 and sampled lengths to 10^5 (block boundaries), both key parities, "
         "aux absent / zero / random, custom nonce functions (failing, zero, fixed incl. values >= n); candidate signatures: honest, all 512 single-bit "
